@@ -377,3 +377,45 @@ package protobuf
 //@   modifies *
 //@   inlines FromSubChannelProposalMsg, ToSubChannelProposalMsg
 //@   ensures fromErr == nil && toErr == nil ==> y != nil && y.Parent == x.Parent && pbBaseEq(y.BaseChannelProposal, x.BaseChannelProposal)
+
+// Control messages and the sync message.
+//@ func verifPBPingMsg
+//@   requires x != nil
+//@   modifies *
+//@   inlines fromPingMsg, toPingMsg
+//@   ensures result != nil && unixnano(result.Created) == unixnano(x.Created)
+//@ func verifPBPongMsg
+//@   requires x != nil
+//@   modifies *
+//@   inlines fromPongMsg, toPongMsg
+//@   ensures result != nil && unixnano(result.Created) == unixnano(x.Created)
+//@ func verifPBShutdownMsg
+//@   requires x != nil
+//@   modifies *
+//@   inlines fromShutdownMsg, toShutdownMsg
+//@   ensures result != nil && result.Reason == x.Reason
+//@ func verifPBAuthResponseMsg
+//@   requires x != nil
+//@   modifies *
+//@   inlines fromAuthResponseMsg, toAuthResponseMsg
+//@   ensures result != nil && len(result.Signature) == len(x.Signature) && forall j int :: 0 <= j && j < len(x.Signature) ==> result.Signature[j] == x.Signature[j]
+//@ func verifPBChannelSyncMsg
+//@   requires x != nil && x.CurrentTX.State != nil && x.CurrentTX.State.App != nil && x.CurrentTX.State.Data != nil && nonNilAssets(x.CurrentTX.State.Assets) && streaming()
+//@   requires validAlloc(x.CurrentTX.State.Allocation) && nonNilBalances(x.CurrentTX.State.Balances) && nonNilLocked(x.CurrentTX.State.Locked) && len(x.CurrentTX.State.Backends) == len(x.CurrentTX.State.Assets)
+//@   requires (forall i int :: 0 <= i && i < len(x.CurrentTX.State.Backends) ==> 0 <= x.CurrentTX.State.Backends[i] && x.CurrentTX.State.Backends[i] <= 4294967295) &&
+//@     (!isNoApp(x.CurrentTX.State.App) ==> marshalLen(appDef(x.CurrentTX.State.App)) > 0)
+//@   modifies *
+//@   inlines fromChannelSyncMsg, toChannelSyncMsg
+// (the state inside goes through FromState/ToState: lemma verifPBState)
+//@   ensures fromErr == nil && toErr == nil ==> y != nil && y.Phase == x.Phase && y.CurrentTX.State != nil
+//@   ensures fromErr == nil && toErr == nil ==> len(y.CurrentTX.Sigs) == len(x.CurrentTX.Sigs) && forall k int :: 0 <= k && k < len(x.CurrentTX.Sigs) ==> pbSigSame(y.CurrentTX.Sigs[k], x.CurrentTX.Sigs[k])
+//@   loop fromChannelSyncMsg.1
+//@     modifies fresh
+//@     invariant protoMsg != nil && fresh(protoMsg) && protoMsg.CurrentTx != nil && fresh(protoMsg.CurrentTx) && protoMsg.Phase == msg.Phase && len(protoMsg.CurrentTx.Sigs) == len(msg.CurrentTX.Sigs) && fresh(arr(protoMsg.CurrentTx.Sigs)) && off(protoMsg.CurrentTx.Sigs) == 0
+//@     invariant forall k int :: 0 <= k && k < $i ==> fresh(arr(protoMsg.CurrentTx.Sigs[k])) && len(protoMsg.CurrentTx.Sigs[k]) == len(msg.CurrentTX.Sigs[k]) && forall j int :: 0 <= j && j < len(msg.CurrentTX.Sigs[k]) ==> protoMsg.CurrentTx.Sigs[k][j] == msg.CurrentTX.Sigs[k][j]
+//@   loop toChannelSyncMsg.1
+//@     modifies fresh
+//@     invariant msg != nil && fresh(msg) && msg.Phase == x.Phase && len(msg.CurrentTX.Sigs) == len(x.CurrentTX.Sigs) && fresh(arr(msg.CurrentTX.Sigs)) && off(msg.CurrentTX.Sigs) == 0 && protoMsg != nil && protoMsg.CurrentTx != nil && len(protoMsg.CurrentTx.Sigs) == len(x.CurrentTX.Sigs)
+//@     invariant forall k int :: 0 <= k && k < len(x.CurrentTX.Sigs) ==> len(protoMsg.CurrentTx.Sigs[k]) == len(x.CurrentTX.Sigs[k]) && forall j int :: 0 <= j && j < len(x.CurrentTX.Sigs[k]) ==> protoMsg.CurrentTx.Sigs[k][j] == x.CurrentTX.Sigs[k][j]
+//@     invariant forall k int :: 0 <= k && k < $i ==> pbSigSame(msg.CurrentTX.Sigs[k], x.CurrentTX.Sigs[k])
+//@     invariant forall k int :: $i <= k && k < len(x.CurrentTX.Sigs) ==> msg.CurrentTX.Sigs[k] == nil
